@@ -12,7 +12,7 @@ Objects (see Model/FormulaSpec.lean, Model/Formula.lean):
   every entry equals `denote f k`, and nothing else is present.
 Helper lemmas live in Proofs/Formula*.lean. All theorems are for unbounded nesting depth and length.
 -/
-import ChemModel.Proofs.FormulaValue2
+import ChemModel.Proofs.FormulaCharge
 
 namespace ChemModel.C01
 open ChemModel.Formula ChemModel.Gen
@@ -142,6 +142,40 @@ example : formulaToComposition "Li@C60 2" = .ok [(3, 1), (6, 120)] := by decide 
 example : formulaToComposition " H 2 O (l) " = .ok [(1, 2), (8, 1)] := by decide +kernel
 example : formulaToComposition "Fe+ 3" = .ok [(26, 1), (0, 3)] ∧ formulaToComposition "Fe+1_0 " = .ok [(26, 1), (0, 10)] := by decide +kernel
 example : formulaToComposition "Fe+1__0" = .error .charge ∧ formulaToComposition "Fe+_1" = .error .charge := by decide +kernel
+
+/-! ### `_get_charge` and `_get_leading_integer` on arbitrary strings -/
+
+/-- **`_get_charge` returns exactly on well-formed charge tokens** (success characterisation, for EVERY string `s`):
+    `_get_charge(s) = q` iff `s` is `+` (q = 1), `-` (q = −1), or a sign followed by a non-empty text that `int()` reads as `n`
+    (q = ±n). Every other string is refused: text on both sides of the sign (`3+2` — "Values both before and after charge
+    token"), sign at the end or no sign at all (`3+`, `3`, empty — "+ or - missing"), both signs, a repeated sign,
+    a number `int()` refuses. -/
+theorem get_charge_ok_iff (s : List Char) (q : Int) :
+    getCharge s = .ok q ↔
+      (s = ['+'] ∧ q = 1) ∨ (s = ['-'] ∧ q = -1) ∨
+      (∃ rest n, rest ≠ [] ∧ pyInt rest = some n ∧ ((s = '+' :: rest ∧ q = (n : Int)) ∨ (s = '-' :: rest ∧ q = -(n : Int)))) :=
+  getCharge_ok_iff s q
+
+/-- … and the refusal is always a `ValueError`. -/
+theorem get_charge_error_is_value_error (s : List Char) (e : ErrKind) (h : getCharge s = .error e) : e.pyName = "ValueError" := by
+  rw [getCharge_error_kind s e h]; rfl
+
+/-- **`_get_leading_integer` never refuses** and splits off exactly the maximal ASCII digit prefix: `p = ds ++ rest`, `ds` all
+    digits, `rest` does not start with a digit, the multiplier is `int(ds)`, or 1 when there is no digit.
+    (The `raise` branch of the Python function needs two matches of `^\d+`, impossible without `re.MULTILINE`: dead code,
+    see `leading_int_regex_guard`.) -/
+theorem leading_integer_total (p : List Char) :
+    ∃ ds, p = ds ++ (getLeadingInteger p).2 ∧ (∀ c ∈ ds, c.isDigit = true) ∧
+      (∀ c, (getLeadingInteger p).2.head? = some c → c.isDigit = false) ∧
+      (getLeadingInteger p).1 = (if ds = [] then 1 else digitsVal ds) :=
+  getLeadingInteger_total p
+
+example : getCharge "3+2".toList = .error .charge ∧ getCharge "2-1".toList = .error .charge := by decide +kernel      -- text on both sides
+example : getCharge "3+".toList = .error .charge ∧ getCharge "3".toList = .error .charge ∧ getCharge [] = .error .charge := by decide +kernel  -- sign missing / at the end
+example : getCharge "+-3".toList = .error .charge ∧ getCharge "++3".toList = .error .charge ∧ getCharge "+x".toList = .error .charge := by decide +kernel
+example : getCharge "+".toList = .ok 1 ∧ getCharge "-".toList = .ok (-1) ∧ getCharge "-12".toList = .ok (-12) ∧ getCharge "+ 1_0 ".toList = .ok 10 := by decide +kernel
+example : getLeadingInteger "12H2O".toList = (12, "H2O".toList) ∧ getLeadingInteger "H2O".toList = (1, "H2O".toList) ∧
+    getLeadingInteger "007".toList = (7, []) := by decide +kernel
 
 /-! ### rejection of ill-formed text -/
 
